@@ -68,13 +68,29 @@ def strong_fixed_points(p):
 
 
 def order(p):
+    """least k >= 1 with p^k = identity: by iterating powers (the definition) while that is
+    short, else as the lcm of the orbit lengths (orbits followed point by point)"""
     n = len(p)
     ident = tuple(range(n))
     q, k = tuple(p), 1
-    while q != ident:
+    while q != ident and k < 2000:
         q = tuple(p[v] for v in q)
         k += 1
-    return k
+    if q == ident:
+        return k
+    import math
+
+    seen, res = set(), 1
+    for start in range(n):
+        if start in seen:
+            continue
+        length, v = 0, start
+        while v not in seen:
+            seen.add(v)
+            v = p[v]
+            length += 1
+        res = res * length // math.gcd(res, length)
+    return res
 
 
 def longest_run(p, up=True):
